@@ -16,8 +16,8 @@ RULE = (
     "ENDMARKER. Non-trivial = tokenizer finished and produced > 2 tokens (distinct texts)."
 )
 BOUND = {
-    "quick": "nasty_ff^<=4 bare, ^<=3 in 6 carriers; ind^<=6; E-TOK xsh n<=3; char edits of 120 programs; 22 files",
-    "thorough": "nasty_ff^<=5 bare, ^<=4 in 6 carriers; ind^<=8; E-TOK xsh n<=4; char edits of all programs; 22 files",
+    "quick": "nasty_ff^<=4 bare, ^<=3 in 6 carriers; ind^<=6; E-LINE depth 4; E-TOK xsh n<=3; char edits of 120 programs; 22 files",
+    "thorough": "nasty_ff^<=5 bare, ^<=4 in 6 carriers; ind^<=8; E-LINE depth 6; E-TOK xsh n<=4; char edits of all programs; 22 files",
 }
 ASSUMPTIONS = ["lines are split at '\\n' only (io.StringIO.readline semantics)", "inputs on which the tokenizer raises are outside the property's domain and only counted"]
 CARR = ["f2", "f3", "str3", "paren", "sub", "withm"]
@@ -33,6 +33,7 @@ def units(tier: str) -> list[tuple]:
     us += tokspace.units("xsh", 3 if tier == "quick" else 4)
     us += edits.char_units(tier)
     us += [("files",)]
+    us += [("eline", 4 if tier == "quick" else 6)]
     return us
 
 
@@ -51,6 +52,13 @@ def cases(unit: tuple):
             yield src.replace("\n", "\r\n")
         for s in corpus.POOL:
             yield s
+    elif k == "eline":
+        from ..explore import linebfs
+
+        info: dict = {}
+        for h, _toks, _err in linebfs.iter_bfs(linebfs.ALPHABET_CORE, unit[1], info):
+            yield {"lines": h}
+        _ELINE_INFO.update(info)
 
 
 def run_unit(unit: tuple, acc: Any) -> None:
@@ -58,7 +66,11 @@ def run_unit(unit: tuple, acc: Any) -> None:
         check_case(case, acc)
 
 
-def check_case(src: str, acc: Any) -> None:
+def check_case(src: Any, acc: Any) -> None:
+    if isinstance(src, dict) and "lines" in src:
+        return check_eline(src, acc)
+    if isinstance(src, dict):
+        src = src["src"]
     st, toks = run.our_tokens(src)
     acc.ran()
     if st != "ok":
@@ -70,3 +82,28 @@ def check_case(src: str, acc: Any) -> None:
     r = tiling.check(src, toks)
     if r is not None:
         acc.violation(r[0], src, r[1])
+
+
+_ELINE_INFO: dict = {}
+
+
+def check_eline(case: dict, acc: Any) -> None:
+    """One transition of the E-LINE search: a tokenizer run on the line history; if it finishes, its tokens tile the text."""
+    from ..explore import linebfs
+
+    hist = case["lines"]
+    src = "".join(hist)
+    _s, toks, err = linebfs.feed(hist)
+    acc.ran()
+    if err is None:
+        r = tiling.check(src, toks)
+        if r is not None:
+            acc.violation(r[0] + " [E-LINE]", {"src": src, "lines": hist}, r[1], text=src)
+    if _ELINE_INFO:
+        acc.notes["eline"] = dict(_ELINE_INFO)
+
+
+def finalize(acc: Any, tier: str) -> dict:
+    e = acc.notes.get("eline") or {}
+    return {"eline": e, "exhaustive": not e.get("capped", False), "states": acc.cases + e.get("states", 0),
+            "transitions": acc.cases + e.get("transitions", 0)}
